@@ -51,6 +51,7 @@ enum {
 #define HX_DUMP_EVENTS  4   /* per-tx callback sequence */
 #define HX_DUMP_LOG     8   /* connection log messages */
 #define HX_DUMP_CALLS   16  /* API call log */
+#define HX_DUMP_SEG     32  /* omit what legitimately depends on chunking (multi-packet-head indicator) */
 
 /* ---- ops ---- */
 enum { OP_REQ = 1, OP_RES = 2, OP_REQ_GAP = 3, OP_RES_GAP = 4, OP_REQ_CLOSE = 5, OP_CLOSE = 6, OP_DESTROY_DONE = 7 };
